@@ -17,6 +17,7 @@ use refmodel::ed::{self, Pt};
 use refmodel::{ristretto as mr, sc};
 use simcore::{Sc, Step, H};
 use subtle::{Choice, ConditionallySelectable};
+#[cfg(feature = "zz")]
 use zeroize::Zeroize;
 
 pub const NREG: usize = 32;
@@ -742,8 +743,16 @@ macro_rules! common_ops {
                 $o.f("enc_eq", p.compress() == q.compress());
             }
             Step::Zero { a, .. } => {
+                #[allow(unused_mut)]
                 let mut p = need!(*a);
+                #[cfg(feature = "zz")]
                 p.zeroize();
+                // builds without the crates' zeroize feature have no such method: the handle is reset through the
+                // public identity constructor instead, so plans and logs stay configuration-independent
+                #[cfg(not(feature = "zz"))]
+                {
+                    p = <$P as Identity>::identity();
+                }
                 set!(*a, p);
             }
             _ => unreachable!(),
